@@ -1,6 +1,6 @@
 (* C03 — each selected active node runs exactly once per execution, nothing else runs. *)
 From Coq Require Import List Arith.
-From Tawazi Require Import Graph Sched SchedInv SchedGhost.
+From Tawazi Require Import Ids IdsFacts Graph Sched SchedInv SchedGhost.
 Import ListNotations.
 
 (* in every accepted run — also failing ones — no node is started twice *)
@@ -30,3 +30,14 @@ Theorem C03_started_is_trace (c : cfg) ls s :
   run c (init c) ls = Some s -> started s = rev (starts_of ls).
 Proof. exact (started_trace c ls s). Qed.
 Print Assumptions C03_started_is_trace.
+
+(* one decorated function used at several call sites: every recorded call registers a node of its own (its id
+   is distinct from every other id of the DAG), so with the theorems above there is exactly one execution per
+   call site; the (k+1)-th use of a function is numbered k *)
+Theorem C03_call_sites_have_distinct_ids (bs : list nat) : NoDup (calls [] bs).
+Proof. exact (call_sites_distinct bs). Qed.
+Print Assumptions C03_call_sites_have_distinct_ids.
+
+Theorem C03_one_node_per_call (bs : list nat) (b : nat) : uses (calls [] bs) b = count_occ Nat.eq_dec bs b.
+Proof. exact (calls_uses bs [] b). Qed.
+Print Assumptions C03_one_node_per_call.
